@@ -82,7 +82,9 @@ def expected_date(op, n, y, m, unit, wd, nth):
 
 
 def _call(pendulum, x, op, unit, wd, nth, keep_time):
-    w = None if wd is None else pendulum.WeekDay(wd)
+    # the weekday argument is accepted as a WeekDay member or as a plain int: both forms are used (the choice is a
+    # function of the receiver and n, so a replay makes the same one)
+    w = None if wd is None else (int(wd) if (x.day + (nth or 0)) % 2 else pendulum.WeekDay(wd))
     worker.horizon(0.5)
     try:
         if op == "next":
